@@ -210,7 +210,8 @@ class Models:
             return FuncV("MappingProxyType")
         if mod == "builtins" and nm == "sum":
             return FuncV("builtin_sum")
-        if mod in ("operator", "math", "itertools", "functools"):
+        if mod in ("operator", "math", "itertools", "functools", "contextlib", "heapq", "collections", "dataclasses",
+                   "bisect", "copy"):
             return FuncV(f"{mod}.{nm}")
         return OpaqueV(f"{mod}.{nm}")
 
@@ -259,15 +260,24 @@ class Models:
         if isinstance(expr, (ast.Constant,)):
             return self.constant(expr.value, node)
         # evaluate simple constant expressions in module scope
-        if isinstance(expr, (ast.Call, ast.BinOp, ast.List, ast.Tuple, ast.Attribute, ast.Dict, ast.Lambda)):
+        if isinstance(expr, (ast.Call, ast.BinOp, ast.List, ast.Tuple, ast.Attribute, ast.Dict, ast.Lambda, ast.ListComp,
+                             ast.DictComp, ast.SetComp, ast.GeneratorExp, ast.UnaryOp, ast.Subscript, ast.IfExp,
+                             ast.JoinedStr, ast.Set, ast.Compare, ast.BoolOp)):
+            # evaluated once per path: a module-level object has one identity (sentinels, tables, lists)
+            cache = self.st.__dict__.setdefault("global_cache", {})
+            ck = (getattr(module, "name", "?"), name)
+            if ck in cache:
+                return cache[ck]
             from .interp import Frame
             self.I.frames.append(Frame(None, module, None, {}))
             try:
-                return self.I.eval(expr)
+                v = self.I.eval(expr)
             except Unsupported:
-                return OpaqueV(f"global:{name}")
+                v = OpaqueV(f"global:{name}")
             finally:
                 self.I.frames.pop()
+            cache[ck] = v
+            return v
         return OpaqueV(f"global:{name}")
 
     # =============================================================== truthiness
@@ -674,6 +684,11 @@ class Models:
                 self.st.effects.append(("dictcall", d, attr, args, self.where(n)))
                 if attr == "update":
                     src = args[0] if args else None
+                    if isinstance(src, DictV):
+                        d.items.extend(self.dict_view(src, n))
+                        for k_, v_ in kwargs.items():
+                            d.items.append((StrV(k_), v_))
+                        return NONE
                     if isinstance(src, GenV):
                         from .interp import OpaqueMarker
                         for it in self.I.gen_iter(src):
@@ -1074,6 +1089,23 @@ class Models:
                     return items[i]
                 except IndexError:
                     I.raise_("IndexError", node)
+            if isinstance(key, Num) and key.kind in ("int", "bool", "anyrat", "exact") and 0 < len(items) <= 32:
+                # symbolic index into a concrete table: one path per valid index (the index is then known), plus
+                # the out-of-range path
+                n_ = len(items)
+                from .contracts import known_truth
+                in_range = known_truth(self.st, CmpV("<", key, self.num_const(n_))) is True and \
+                    known_truth(self.st, CmpV(">=", key, self.num_const(0))) is True
+                opts = [str(i) for i in range(n_)] + ([] if in_range else ["out of range"])
+                c = I.choose(len(opts), f"index@{getattr(node, 'lineno', '?')}", opts)
+                if c == n_:
+                    # (a negative index that is in range is not modelled: it ends here as well)
+                    I.raise_("IndexError", node)
+                self.decide_cmp("==", key, self.num_const(c), node) if False else None
+                st_ = self.st
+                if not st_.equate(key.rf, RF.const(c)):
+                    st_.cmp_facts.append((st_.canon_diff(st_.norm(key.rf) - RF.const(c)).key(), "==", True))
+                return items[c]
             I.unsupported(node, "symbolic index")
         if isinstance(obj, ListV):
             if isinstance(key, Num) and self.st.norm(key.rf).is_const():
@@ -1399,6 +1431,8 @@ class Models:
             return list(v.items)
         if isinstance(v, TermV) and v.items is not None:
             return [TupleV([e, x]) for e, x in v.items]
+        if isinstance(v, DictV) and getattr(v, "rate_table", None) is None:
+            return [k for k, _ in self.dict_view(v, node)]
         if isinstance(v, GenV):
             out = list(self.I.gen_iter(v))
             from .interp import OpaqueMarker
